@@ -315,6 +315,10 @@ type repScenario struct {
 	Settle   time.Duration // time after the last operation in which the replica must converge
 	Codec    rp.CompressionCodec
 	Explicit bool // use an explicit primary config with the given codec (default config otherwise)
+	// ViaManager: the replica node is created and restarted by the real replication.Manager (replica mode) on the
+	// replica's engine, and a restart closes and reopens that engine too; only the transport is swapped for the
+	// in-memory link. The applier is the manager's own, so the applied log is not recorded (C14's oracle only).
+	ViaManager bool
 }
 
 type repResult struct {
@@ -394,7 +398,32 @@ func runRep(dir string, sc repScenario, faults map[int]int) (*repResult, vsched.
 		link := &repLink{p: prim, faults: faults}
 		rec := &recApplier{inner: replication.NewEngineApplier(rr.Eng)}
 		var rep *replication.Replica
+		var mgr *replication.Manager
 		startReplica := func() {
+			if sc.ViaManager {
+				cfg := replication.DefaultManagerConfig()
+				cfg.Enabled, cfg.Mode = true, "replica"
+				cfg.PrimaryAddr, cfg.ListenAddr = "127.0.0.1:1", "127.0.0.1:0"
+				m, err := replication.NewManager(rr.Eng, cfg)
+				if err != nil {
+					res.Problem = "HARNESS manager: " + err.Error()
+					return
+				}
+				if err := m.Start(); err != nil {
+					res.Problem = "HARNESS manager start: " + err.Error()
+					return
+				}
+				// the replica's loop has not run yet (cooperative scheduling): its first connection already goes
+				// through the in-memory link
+				if r := m.VerifReplica(); r != nil {
+					r.SetConnector(&memConnector{c: &memClient{link: link}})
+					rep = r
+				} else {
+					res.Problem = "HARNESS manager runs no replica"
+				}
+				mgr = m
+				return
+			}
 			r, err := replication.NewReplica(0, rec, replication.DefaultReplicaConfig())
 			if err != nil {
 				res.Problem = "HARNESS replica: " + err.Error()
@@ -478,6 +507,21 @@ func runRep(dir string, sc repScenario, faults map[int]int) (*repResult, vsched.
 		evs = append(evs, ev{sc.JoinAt, startReplica})
 		if sc.Restart > 0 {
 			evs = append(evs, ev{sc.Restart, func() {
+				if sc.ViaManager {
+					// the whole replica process goes down and comes back on its data directory
+					if mgr != nil {
+						mgr.Stop()
+					}
+					rr.Eng.Close()
+					e, err := engine.NewEngineFacade(rr.Dir)
+					if err != nil {
+						res.Problem = "HARNESS replica reopen: " + err.Error()
+						return
+					}
+					rr.Eng = e
+					startReplica()
+					return
+				}
 				if rep != nil {
 					rep.Stop()
 				}
@@ -523,7 +567,9 @@ func runRep(dir string, sc repScenario, faults map[int]int) (*repResult, vsched.
 		}
 		res.Applied = rec.Applied
 		res.Log = link.log
-		if rep != nil {
+		if mgr != nil {
+			mgr.Stop()
+		} else if rep != nil {
 			rep.Stop()
 		}
 		prim.Close()
